@@ -4,7 +4,11 @@
 use crate::enc::{self, Delivery, Mode, Outcome, VecSource};
 use crate::gen::{self, Cfg, Geometry};
 use crate::trace::Shards;
-use flacenc::component::{BitRepr, Stream, SubFrame};
+use flacenc::bitsink::ByteSink;
+use flacenc::component::parser;
+use flacenc::component::{BitRepr, ChannelAssignment, Decode, Frame, Residual, Stream, SubFrame};
+use flacenc::error::Verify;
+use std::panic::{catch_unwind, AssertUnwindSafe};
 use rand::rngs::StdRng;
 use rand::Rng;
 use serde_json::{json, Value};
@@ -82,6 +86,83 @@ fn detail_len(n: &usize) -> usize {
     *n
 }
 
+fn residual_projection(r: &Residual, n: usize, ord: usize) -> Value {
+    let np = 1usize << r.partition_order();
+    json!({"porder": r.partition_order(), "params": (0..np).map(|p| r.rice_parameter(p)).collect::<Vec<_>>(),
+           "res": (ord..n).map(|t| r.residual(t)).collect::<Vec<_>>()})
+}
+
+/// What the library's parser reports for one frame, projected through the public accessors (C15).
+fn frame_projection(f: &Frame) -> Value {
+    let n = f.block_size();
+    let chcode = match f.header().channel_assignment() {
+        ChannelAssignment::Independent(c) => *c as i64 - 1,
+        ChannelAssignment::LeftSide => 8,
+        ChannelAssignment::RightSide => 9,
+        ChannelAssignment::MidSide => 10,
+    };
+    let none = json!({"porder": -1, "params": [], "res": []});
+    let subs: Vec<Value> = (0..f.subframe_count())
+        .map(|c| match f.subframe(c).unwrap() {
+            SubFrame::Constant(x) => json!({"kind": "constant", "order": 0, "dc": x.dc_offset(), "warm": [], "coefs": [], "shift": 0, "prec": 0, "r": none}),
+            SubFrame::Verbatim(_) => json!({"kind": "verbatim", "order": 0, "dc": 0, "warm": [], "coefs": [], "shift": 0, "prec": 0, "r": none}),
+            SubFrame::FixedLpc(x) => json!({"kind": "fixed", "order": x.order(), "dc": 0, "warm": x.warm_up(), "coefs": [], "shift": 0, "prec": 0,
+                                            "r": residual_projection(x.residual(), n, x.order())}),
+            SubFrame::Lpc(x) => json!({"kind": "lpc", "order": x.order(), "dc": 0, "warm": x.warm_up(),
+                                       "coefs": (0..x.order()).map(|i| x.parameters().coefficient(i).unwrap_or(0)).collect::<Vec<_>>(),
+                                       "shift": x.parameters().shift(), "prec": x.parameters().precision(),
+                                       "r": residual_projection(x.residual(), n, x.order())}),
+        })
+        .collect();
+    let dec = f.decode();
+    let ch = f.subframe_count().max(1);
+    let chans: Vec<Vec<i32>> = (0..ch).map(|c| (0..n).map(|t| dec[t * ch + c]).collect()).collect();
+    json!({"n": n, "chcode": chcode, "subs": subs, "dec": chans})
+}
+
+/// C15: parse the emitted bytes with the library's own parser.
+fn parse_back(bytes: &[u8]) -> (Value, Option<Stream>) {
+    let r = catch_unwind(AssertUnwindSafe(|| parser::stream::<nom::error::Error<&[u8]>>(bytes).map(|(rest, s)| (rest.len(), s)).map_err(|e| format!("{e:?}"))));
+    match r {
+        Err(_) => (json!({"parse": "panic", "remaining": -1, "verify": "na", "reser": false, "nframes": -1, "frames_ok": false}), None),
+        Ok(Err(e)) => (json!({"parse": "err", "detail": e.chars().take(100).collect::<String>(), "remaining": -1, "verify": "na", "reser": false, "nframes": -1, "frames_ok": false}), None),
+        Ok(Ok((rest, s))) => {
+            let verify = match catch_unwind(AssertUnwindSafe(|| s.verify())) {
+                Ok(Ok(())) => "ok",
+                Ok(Err(_)) => "err",
+                Err(_) => "panic",
+            };
+            let reser = catch_unwind(AssertUnwindSafe(|| {
+                let mut sink = ByteSink::new();
+                s.write(&mut sink).is_ok() && sink.as_slice() == bytes
+            }))
+            .unwrap_or(false);
+            // every frame on its own: serialise, parse with parser::frame, serialise again
+            let frames_ok = catch_unwind(AssertUnwindSafe(|| {
+                (0..s.frame_count()).all(|k| {
+                    let f = s.frame(k).unwrap();
+                    let mut a = ByteSink::new();
+                    if f.write(&mut a).is_err() {
+                        return false;
+                    }
+                    let abytes = a.as_slice().to_vec();
+                    let parsed = parser::frame::<nom::error::Error<&[u8]>>(s.stream_info(), true)(&abytes).map(|(rest, g)| (rest.len(), g));
+                    let ok = match parsed {
+                        Ok((rest, g)) => {
+                            let mut b = ByteSink::new();
+                            rest == 0 && g.write(&mut b).is_ok() && abytes == b.as_slice() && g.verify().is_ok()
+                        }
+                        Err(_) => false,
+                    };
+                    ok
+                })
+            }))
+            .unwrap_or(false);
+            (json!({"parse": "ok", "remaining": rest, "verify": verify, "reser": reser, "nframes": s.frame_count(), "frames_ok": frames_ok}), Some(s))
+        }
+    }
+}
+
 pub struct CaseResult {
     pub lines: Vec<Value>,
     pub kinds: BTreeSet<String>,
@@ -152,6 +233,14 @@ pub fn run_case(case: &Case, props: &[&str], with_counts: bool) -> CaseResult {
         "delivery": format!("{:?}", case.delivery),
         "count": stream.as_ref().map_or(-1i64, |s| if with_counts { s.count_bits() as i64 } else { -1 }),
     })];
+    let parsed = if props.contains(&"C15") && outcome == "ok" {
+        let (p, ps) = parse_back(&bytes);
+        lines[0]["p15"] = p;
+        ps
+    } else {
+        lines[0]["p15"] = json!({"parse": "na", "remaining": 0, "verify": "na", "reser": true, "nframes": -1, "frames_ok": true});
+        None
+    };
     let nblk = if g.n == 0 { 0 } else { (g.n + g.bs - 1) / g.bs };
     for k in 0..nblk {
         let a = k * g.bs;
@@ -166,6 +255,9 @@ pub fn run_case(case: &Case, props: &[&str], with_counts: bool) -> CaseResult {
                 kinds.insert(format!("{:?}", f.header().channel_assignment()));
                 if with_counts {
                     l["cb"] = reported_counts(s, k);
+                }
+                if let Some(pf) = parsed.as_ref().and_then(|ps| ps.frame(k)) {
+                    l["t15"] = catch_unwind(AssertUnwindSafe(|| frame_projection(pf))).unwrap_or(json!({"n": -1, "chcode": -1, "subs": [], "dec": []}));
                 }
             }
         }
